@@ -49,6 +49,16 @@ func newCtx(repo *load.Repo, s *report.Sink) *ctx {
 
 func (c *ctx) pos(n ast.Node) string { return c.repo.Rel(n.Pos()) }
 
+// fileOf: the file context holding node n.
+func (c *ctx) fileOf(n ast.Node) *fileCtx {
+	for _, fc := range c.files {
+		if fc.file.Pos() <= n.Pos() && n.End() <= fc.file.End() {
+			return fc
+		}
+	}
+	return nil
+}
+
 // funcName returns "Recv.Name" or "Name" of the declaration enclosing n.
 func (f *fileCtx) funcName(n ast.Node) string {
 	for x := n; x != nil; x = f.par[x] {
